@@ -74,6 +74,10 @@ impl Check for C04 {
             Tier::Thorough => 1000,
         };
         let mut sc = gen_scenario(rng, false, false, true, 4, max_steps);
+        if rng.chance(0.08) {
+            let at = rng.below(sc.chain.len() as u64 + 1) as usize;
+            sc.chain.insert(at, Op::JsonEdit(rng.pick(&["x+1", "y-1", "angle-2pi", "angle+2pi", "cell-obtuse"]).to_string()));
+        }
         if !sc.lj && rng.chance(0.3) {
             // scalene radial polygon
             let n = rng.range_u64(3, 6) as usize;
